@@ -45,6 +45,9 @@ pub enum Arg {
     Lit(String),
     Int(i64),
     Var(VarId),
+    /// a call in argument position (only ever the last argument: a call
+    /// takes every argument that follows it)
+    Call(usize, Vec<Arg>),
 }
 
 #[derive(Clone, Debug, PartialEq)]
@@ -351,11 +354,13 @@ impl<'a> Model<'a> {
         }
     }
 
-    fn arg(&self, a: &Arg) -> V {
+    /// None if execution stopped inside a call in argument position
+    fn arg(&mut self, a: &Arg) -> Option<V> {
         match a {
-            Arg::Lit(s) => V::Str(s.clone()),
-            Arg::Int(n) => V::Num(*n),
-            Arg::Var(v) => self.env.get(v).cloned().unwrap_or(V::Undef),
+            Arg::Lit(s) => Some(V::Str(s.clone())),
+            Arg::Int(n) => Some(V::Num(*n)),
+            Arg::Var(v) => Some(self.env.get(v).cloned().unwrap_or(V::Undef)),
+            Arg::Call(f, args) => self.call(*f, args),
         }
     }
 
@@ -366,7 +371,14 @@ impl<'a> Model<'a> {
             self.e.outcome = Outcome::Die;
             return None;
         }
-        let vals: Vec<V> = args.iter().map(|a| self.arg(a)).collect();
+        // arguments are evaluated left to right, before the body runs
+        let mut vals: Vec<V> = Vec::new();
+        for a in args {
+            match self.arg(a) {
+                Some(v) => vals.push(v),
+                None => return None,
+            }
+        }
         for (p, v) in func.params.iter().zip(vals) {
             self.env.insert(*p, v);
         }
